@@ -85,8 +85,8 @@ PatBad(P, k, pat) ==
            dk == DkVec(D, k)
        IN (IF PatDiag(n, pat) THEN {} ELSE {"pat-diagonal"}) \cup
           (IF PatSym(n, pat) THEN {} ELSE {"pat-symmetric"}) \cup
-          (IF PatMay(D, dk, pat) THEN {} ELSE {"pat-stored-but-not-neighbours"}) \cup
-          (IF PatMust(D, dk, pat) THEN {} ELSE {"pat-neighbours-not-stored"}) \cup
+          (IF PatMay(D, dk, pat) THEN {} ELSE {"pat-not-neighbours"}) \cup
+          (IF PatMust(D, dk, pat) THEN {} ELSE {"pat-missing-pair"}) \cup
           (IF PatCount(D, dk, k, pat) THEN {} ELSE {"pat-fewer-than-k"})
 PatOK(P, k, pat) == PatBad(P, k, pat) = {}
 
